@@ -31,4 +31,23 @@ __attribute__((noinline)) void h_k2_child(void) {
     __verif_check(bi.get_anchor()[2] == ((i & 1) ? a[2] + 0.5 * s[2] : a[2]));
   }
 }
+// two refinement levels: descending twice lands in the grandchild on the position's side of both mid-planes, per axis
+__attribute__((noinline)) void h_k2_child2(void) {
+  double a[3], s[3], p[3];
+  for (int k = 0; k < 3; ++k) { a[k] = nondet_double(); s[k] = nondet_double(); p[k] = nondet_double(); __CPROVER_assume(s[k] > 0.); }
+  Box<> box(CoordinateVector<>(a[0], a[1], a[2]), CoordinateVector<>(s[0], s[1], s[2]));
+  AMRGridCell< Payload > cell(box, 0, nullptr);
+  cell.create_all_cells(0, 2);
+  const CoordinateVector<> pos(p[0], p[1], p[2]);
+  AMRGridCell< Payload > *c1 = cell.get_child(pos); __verif_check(c1 != nullptr && !c1->is_single_cell());
+  AMRGridCell< Payload > *c2 = c1->get_child(pos); __verif_check(c2 != nullptr && c2->is_single_cell());
+  __verif_check(c2->get_parent() == c1 && c2->get_level() == 2);
+  const Box<> b1 = c1->get_geometry(), b2 = c2->get_geometry();
+  for (int k = 0; k < 3; ++k) {
+    const double mid1 = b1.get_anchor()[k] + 0.5 * b1.get_sides()[k];     // mid-plane of the level-1 cell that was selected
+    if (p[k] > mid1) __verif_check(b2.get_anchor()[k] == mid1); else __verif_check(b2.get_anchor()[k] == b1.get_anchor()[k]);
+    __verif_check(b2.get_sides()[k] == 0.5 * b1.get_sides()[k]);
+    __verif_check(b1.get_sides()[k] == 0.5 * s[k]);
+  }
+}
 }
